@@ -2156,7 +2156,7 @@ func wrapperOutcomes(c *Ctx, id string) {
 				}
 				return nil
 			},
-			Complete: func(st *State, name string, args []AV) (AV, []AV, bool) {
+			Complete: func(st *State, name string, args []AV) (AV, [][]AV, bool) {
 				if name != opLabel || cbSig == nil || (st.C("operation") != done && st.C("operation") != serverError) {
 					return nil, nil, false
 				}
@@ -2191,7 +2191,7 @@ func wrapperOutcomes(c *Ctx, id string) {
 						cbArgs = append(cbArgs, avOpaque{sym})
 					}
 				}
-				return args[len(args)-1], cbArgs, true
+				return args[len(args)-1], [][]AV{cbArgs}, true
 			},
 			Oracle: func(st *State, name string, args []AV, res *types.Tuple) ([]AV, bool) {
 				switch {
